@@ -65,7 +65,7 @@ def switchStep (g : BGraph) (v j : Nat) (o : MOp) : Step (Nat × Nat) Ev :=
 def stepPS (g : BGraph) (s : Nat × Nat) : Step (Nat × Nat) Ev :=
   if g.isSwitchV s.1 then
     match g.vs[s.1]? with
-    | some ⟨_, .item (.op o), _, _, _, _, _, _⟩ => g.switchStep s.1 s.2 o
+    | some ⟨_, .item (.op o), _, _, _, _, _, _, _, _, _, _, _, _, _⟩ => g.switchStep s.1 s.2 o
     | _ => .halt evStuck
   else g.stepP s
 
